@@ -306,3 +306,56 @@ func isBuiltinCall(call *ssa.Call, name string) bool {
 	b, ok := call.Call.Value.(*ssa.Builtin)
 	return ok && b.Name() == name
 }
+
+// ruleFreshCommitQueuePerTerm (R04.7, shared with C02): the commit queue holds the messages of THIS term of leadership that
+// wait for their acknowledgement. A queue carried over from an earlier term still holds pending acks of messages the server
+// may have truncated as a follower in between: when the new term commits another message at the same offset, the old
+// publisher receives a positive ack for a message that is stored nowhere. So every path through startReplicating to the
+// start of the commit loop installs a queue made there.
+func ruleFreshCommitQueuePerTerm(c *eng.Ctx) {
+	p := c.P
+	fn := c.Fn("server.(*partition).startReplicating")
+	if fn == nil {
+		return
+	}
+	qf := p.Field("server", "partition", "commitQueue")
+	fresh := func(x ssa.Instruction) bool {
+		st, ok := x.(*ssa.Store)
+		if !ok {
+			return false
+		}
+		fa, ok := st.Addr.(*ssa.FieldAddr)
+		if !ok || !fieldIs(fa, qf) {
+			return false
+		}
+		call := eng.AsCall(eng.Strip(st.Val))
+		return call != nil && strings.HasSuffix(eng.CalleeRef(&call.Call), "queue.New")
+	}
+	startsLoop := func(x ssa.Instruction) bool {
+		ci, ok := x.(ssa.CallInstruction)
+		if !ok || !strings.Contains(eng.CalleeRef(ci.Common()), "startGoroutine") {
+			return false
+		}
+		for _, a := range ci.Common().Args {
+			if mc, isMC := a.(*ssa.MakeClosure); isMC {
+				if f, isF := mc.Fn.(*ssa.Function); isF && len(eng.CallsIn(f, "server.partition.commitLoop")) > 0 {
+					return true
+				}
+			}
+		}
+		return false
+	}
+	found := false
+	eng.Instrs(fn, func(in ssa.Instruction) {
+		if startsLoop(in) {
+			found = true
+		}
+	})
+	if !found {
+		c.Unresolved("the start of commitLoop in startReplicating")
+		return
+	}
+	q := &eng.PathQuery{Fn: fn, FromEntry: true, Target: startsLoop, CutInstr: fresh}
+	w := q.Find()
+	c.Check(w == nil, "a term of leadership starts with an empty commit queue", p.Pos(fn.Pos()), "p.commitQueue = queue.New(…) on every path to the start of the commit loop", "startReplicating can start the commit loop on a queue it did not make ("+w.String()+"): pending acks of an earlier term of leadership survive — after the server lost and regained the leadership, a publisher is told its message at offset N is committed when another message was stored and committed there")
+}
